@@ -41,7 +41,11 @@ def runRoundTrip (cfg : String) (inp : List String) (obs : List String) : Option
   let c0 := Ctx.init cmds [] 5000 8 (cfg != "C")
   let c1 := Ctx.input c0 (Result.bytesOf "Q?\n")
   let out := c1.out.written
-  let data := (out.reverse.dropWhile (fun b => b == 10 || b == 13)).reverse
+  -- exactly one message terminator (CR LF) is removed: the data itself may end in LF / CR bytes
+  let r := out.reverse
+  let r := if r.head? == some 10 then r.tail else r
+  let r := if r.head? == some 13 then r.tail else r
+  let data := r.reverse
   let c2 := Ctx.input { c1 with events := [], out := { c1.out with written := [] } } (Result.bytesOf "S " ++ data ++ [10])
   let nerr := (c2.events.filter (fun e => match e with | .error .. => true | _ => false)).length
   let (mok, mval) : Bool × String := match c2.events.find? (fun e => match e with | .pInt .. | .pLit .. | .pBool .. | .pBytes .. | .pText .. | .pArr .. => true | _ => false) with
